@@ -232,8 +232,14 @@ pub struct RunResult {
 /// Run a compiled program once against a logging (optionally faulting) target; the returned
 /// events are `start`, the interleaved `T` / `enter` / `exit` events and `end`.
 pub fn run_once(program: &Program, ev: &J, meta: &J, schedule: &[usize], mode: FaultMode, tz: &TimeZone, detail: bool) -> RunResult {
-    let mut target = LoggingTarget::new(enc::json_to_val(ev), enc::json_to_val(meta), schedule.to_vec(), mode);
     let mut runtime = Runtime::default();
+    run_with(&mut runtime, program, ev, meta, schedule, mode, tz, detail)
+}
+
+/// Like `run_once` but on a caller-owned runtime (C14: reuse after `clear()`).
+#[allow(clippy::too_many_arguments)]
+pub fn run_with(runtime: &mut Runtime, program: &Program, ev: &J, meta: &J, schedule: &[usize], mode: FaultMode, tz: &TimeZone, detail: bool) -> RunResult {
+    let mut target = LoggingTarget::new(enc::json_to_val(ev), enc::json_to_val(meta), schedule.to_vec(), mode);
     verif::start_trace(detail);
     let result = catch_unwind(AssertUnwindSafe(|| runtime.resolve(&mut target, program, tz)));
     let trace = verif::stop_trace();
@@ -410,6 +416,140 @@ fn remove_stmt(list: &[J], path: &[usize]) -> Vec<J> {
     } else {
         let inner = remove_stmt(out[path[0]]["s"].as_array().expect("block"), &path[1..]);
         out[path[0]]["s"] = J::Array(inner);
+    }
+    out
+}
+
+/// What the compiler reports for a source text, as comparable JSON (C14: compile determinism).
+pub fn compile_report(src: &str, case: &J) -> (Option<Program>, J) {
+    let fns = vrl::stdlib::all();
+    let r = catch_unwind(AssertUnwindSafe(|| compile_with_external(src, &fns, &external_env(case), compile_config(case))));
+    match r {
+        Err(p) => (None, json!({"panic": panic_message(&p)})),
+        Ok(Err(d)) => (None, json!({"rejected": diag_json(&d)})),
+        Ok(Ok(c)) => {
+            let info = c.program.info();
+            let fin = c.program.final_type_info();
+            let rep = json!({"warnings": diag_json(&c.warnings),
+                "info": {"fallible": info.fallible, "abortable": info.abortable,
+                         "queries": info.target_queries.iter().map(enc::tpath_to_json).collect::<Vec<_>>(),
+                         "assignments": info.target_assignments.iter().map(enc::tpath_to_json).collect::<Vec<_>>()},
+                "final": {"result": enc::kind_to_json(fin.result.kind()), "returns": enc::kind_to_json(fin.result.returns()),
+                          "target": enc::kind_to_json(fin.state.external.target_kind()),
+                          "metadata": enc::kind_to_json(fin.state.external.metadata_kind())}});
+            (Some(c.program), rep)
+        }
+    }
+}
+
+fn distinct(v: Vec<J>) -> Vec<J> {
+    let mut seen: Vec<String> = vec![];
+    let mut out = vec![];
+    for x in v {
+        let s = x.to_string();
+        if !seen.contains(&s) {
+            seen.push(s);
+            out.push(x);
+        }
+    }
+    out
+}
+
+/// C14: compile twice; run sequentially on fresh runtimes, on one runtime cleared between
+/// events (two orders), and from `threads` threads sharing the one `Program`.
+pub fn threads_case(case: &J, events: &[J], tz: &TimeZone, threads: usize, reps: usize) -> Vec<J> {
+    let mut out = vec![];
+    let (src, is_ast) = match case.get("src") {
+        Some(s) => (s.as_str().unwrap().to_owned(), false),
+        None => (render::render_program(case["ast"].as_array().map(|v| v.as_slice()).unwrap_or(&[])).0, true),
+    };
+    let (p1, r1) = compile_report(&src, case);
+    let (_p2, r2) = compile_report(&src, case);
+    let compile_same = r1 == r2;
+    let Some(program) = p1 else {
+        out.push(json!({"e": "detcmp", "id": case["id"], "src": src, "compile_same": compile_same, "accepted": false,
+                        "first": r1, "second": r2, "per_event": []}));
+        return out;
+    };
+    // the traced, validated runs (sequential, fresh runtime): only for generated programs
+    if is_ast {
+        if let Ok(c) = compile_case(case) {
+            out.push(c.prog_event);
+            for e in events {
+                out.extend(run_once(&c.program, &e["ev"], &e["meta"], &[], FaultMode::None, tz, false).events);
+            }
+        }
+    }
+    let base: Vec<J> = events.iter().map(|e| run_once(&program, &e["ev"], &e["meta"], &[], FaultMode::None, tz, false).end).collect();
+    // histories on a cleared runtime
+    let mut hist: Vec<Vec<J>> = events.iter().map(|_| vec![]).collect();
+    for order in [false, true] {
+        let mut rt = Runtime::default();
+        let idx: Vec<usize> = if order { (0..events.len()).rev().collect() } else { (0..events.len()).collect() };
+        for i in idx {
+            hist[i].push(run_with(&mut rt, &program, &events[i]["ev"], &events[i]["meta"], &[], FaultMode::None, tz, false).end);
+            rt.clear();
+        }
+    }
+    // concurrent runs sharing the program
+    let barrier = std::sync::Barrier::new(threads);
+    let results: Vec<Vec<(usize, J)>> = std::thread::scope(|s| {
+        let hs: Vec<_> = (0..threads)
+            .map(|t| {
+                let program = &program;
+                let barrier = &barrier;
+                s.spawn(move || {
+                    let mut mine = vec![];
+                    let mut rt = Runtime::default();
+                    barrier.wait();
+                    for r in 0..reps {
+                        for k in 0..events.len() {
+                            let i = (k + t + r) % events.len();
+                            let end = run_with(&mut rt, program, &events[i]["ev"], &events[i]["meta"], &[], FaultMode::None, tz, false).end;
+                            rt.clear();
+                            mine.push((i, end));
+                            if (k + t) % 3 == 0 {
+                                std::thread::yield_now();
+                            }
+                        }
+                    }
+                    mine
+                })
+            })
+            .collect();
+        hs.into_iter().map(|h| h.join().unwrap_or_default()).collect()
+    });
+    let mut conc: Vec<Vec<J>> = events.iter().map(|_| vec![]).collect();
+    let mut nconc = 0usize;
+    for r in results {
+        for (i, end) in r {
+            conc[i].push(end);
+            nconc += 1;
+        }
+    }
+    let per_event: Vec<J> = (0..events.len())
+        .map(|i| json!({"base": base[i], "hist": distinct(std::mem::take(&mut hist[i])), "conc": distinct(std::mem::take(&mut conc[i]))}))
+        .collect();
+    out.push(json!({"e": "detcmp", "id": case["id"], "src": src, "compile_same": compile_same, "accepted": true,
+                    "first": if compile_same { json!("same") } else { r1 }, "second": if compile_same { json!("same") } else { r2 },
+                    "per_event": per_event, "concurrent_runs": nconc, "threads": threads}));
+    out
+}
+
+/// Sources of every stdlib example that does not call an explicitly nondeterministic function.
+pub fn example_cases() -> Vec<J> {
+    const EXEMPT: [&str; 14] = ["now(", "random_", "uuid_v4", "uuid_v7", "get_hostname", "get_env_var", "dns_lookup", "reverse_dns",
+        "http_request", "get_timezone_name", "uuid_from_friendly_id", "get_secret", "set_secret", "remove_secret"];
+    let mut out = vec![];
+    let mut id = 1_000_000;
+    for f in vrl::stdlib::all() {
+        for ex in f.examples() {
+            if EXEMPT.iter().any(|x| ex.source.contains(x)) {
+                continue;
+            }
+            id += 1;
+            out.push(json!({"id": id, "src": ex.source, "fn": f.identifier()}));
+        }
     }
     out
 }
